@@ -101,3 +101,28 @@ func (r *Good_E4Rrecursion_alias) MarshalJSON() ([]byte, error) {
 	type alias Good_E4Rrecursion_alias
 	return json.Marshal((*alias)(r))
 }
+
+func n3verify(d *n1doc, v string) bool {
+	if d == nil {
+		return false
+	}
+	return d.Name == v
+}
+
+// the seeded C09 shape: the callee treats d as nullable, the caller dereferences it on the failure path
+func Bad_E3N3_belief(d *n1doc, v string) error {
+	if !n3verify(d, v) {
+		return errors.New("mismatch for " + d.Name)
+	}
+	return nil
+}
+
+func Good_E3N3_guarded(d *n1doc, v string) error {
+	if !n3verify(d, v) {
+		if d != nil {
+			return errors.New("mismatch for " + d.Name)
+		}
+		return errors.New("mismatch")
+	}
+	return nil
+}
